@@ -109,6 +109,8 @@ static int _warc_free(struct archive_write *a);
 /* private routines */
 static ssize_t _popul_ehdr(struct archive_string *t, size_t z, warc_essential_hdr_t);
 static int _gen_uuid(warc_uuid_t *tgt);
+static int _valid_uri(const char *uri);
+static int _valid_time(time_t t);
 
 
 /*
@@ -217,7 +219,7 @@ _warc_header(struct archive_write *a, struct archive_entry *entry)
 		archive_string_free(&hdr);
 	}
 
-	if (archive_entry_pathname(entry) == NULL) {
+	if (!_valid_uri(archive_entry_pathname(entry))) {
 		archive_set_error(&a->archive, EINVAL,
 		    "Invalid filename");
 		return (ARCHIVE_WARN);
@@ -226,6 +228,7 @@ _warc_header(struct archive_write *a, struct archive_entry *entry)
 	w->typ = archive_entry_filetype(entry);
 	w->populz = 0U;
 	if (w->typ == AE_IFREG) {
+		int ret = ARCHIVE_OK;
 		warc_essential_hdr_t rh = {
 			WT_RSRC,
 			/*uri*/NULL,
@@ -249,14 +252,24 @@ _warc_header(struct archive_write *a, struct archive_entry *entry)
 				&a->archive,
 				ARCHIVE_ERRNO_FILE_FORMAT,
 				"cannot archive file");
+			archive_string_free(&hdr);
+			/* nothing was written: _finish_entry() must not
+			 * terminate a record that was never begun */
+			w->typ = 0;
 			return (ARCHIVE_WARN);
+		}
+		if (!_valid_time(rh.mtime)) {
+			/* _popul_ehdr() left Last-Modified out */
+			archive_set_error(&a->archive, ERANGE,
+			    "File modification time out of range");
+			ret = ARCHIVE_WARN;
 		}
 		/* otherwise append to output stream */
 		__archive_write_output(a, hdr.s, r);
 		/* and let subsequent calls to _data() know about the size */
 		w->populz = rh.cntlen;
 		archive_string_free(&hdr);
-		return (ARCHIVE_OK);
+		return (ret);
 	}
 	/* just resort to erroring as per Tim's advice */
 	__archive_write_entry_filetype_unsupported(
@@ -389,7 +402,9 @@ _popul_ehdr(struct archive_string *tgt, size_t tsz, warc_essential_hdr_t hdr)
 	xstrftime(tgt, "WARC-Date: %Y-%m-%dT%H:%M:%SZ\r\n", hdr.rtime);
 
 	/* while we're at it, record the mtime */
-	xstrftime(tgt, "Last-Modified: %Y-%m-%dT%H:%M:%SZ\r\n", hdr.mtime);
+	if (_valid_time(hdr.mtime))
+		xstrftime(tgt,
+		    "Last-Modified: %Y-%m-%dT%H:%M:%SZ\r\n", hdr.mtime);
 
 	if (hdr.recid == NULL) {
 		/* generate one, grrrr */
@@ -426,6 +441,29 @@ _popul_ehdr(struct archive_string *tgt, size_t tsz, warc_essential_hdr_t hdr)
 	archive_strncat(tgt, "\r\n", 2);
 
 	return (archive_strlen(tgt) >= tsz)? -1: (ssize_t)archive_strlen(tgt);
+}
+
+static int
+_valid_uri(const char *uri)
+{
+/** a header line holds the URI verbatim: it can be neither empty
+ * nor contain white space or control characters */
+	const unsigned char *p = (const unsigned char *)uri;
+
+	if (p == NULL || *p == '\0')
+		return 0;
+	for (; *p != '\0'; p++) {
+		if (*p <= ' ' || *p == 0x7f)
+			return 0;
+	}
+	return 1;
+}
+
+static int
+_valid_time(time_t t)
+{
+/** ISO 8601 as used by WARC has a four digit year */
+	return ((int64_t)t >= -62167219200LL && (int64_t)t <= 253402300799LL);
 }
 
 static int
